@@ -4,11 +4,13 @@
    ctir.run   <function> <arg>…   → ok <result>… | panic | stuck
    ctir.trace <function> <arg>…   → ok n=<events> h=<digest> d=<declassified verdicts> | panic … | stuck
    ctir.check <function>          → true | false      (the label checker on the slice of that function)
+   ctirfn.run <function> <arg>…   → the same as ctir.run on the program SMGo/Gen/CTIRProgFn.lean
 
    an optional first argument `tape=x<hex>` is the randomness `io.ReadFull` delivers, 32 bytes per read
    values: decimal integers, `[v,v,…]` arrays, `x<hex>` byte arrays (`x` alone: empty) -/
 import SMGo.Model.CTIR
 import SMGo.Gen.CTIRProg
+import SMGo.Gen.CTIRProgFn
 open SMGo.Model.CTIR SMGo.Gen.CTIRProg
 
 namespace Driver.CTIR
@@ -121,6 +123,15 @@ def handle (toks : List String) : Option String :=
     | some (some (c, t)) =>
       let kind := match c with | .ret _ => "ok" | .panic => "panic" | _ => "stuck"
       some s!"{kind} n={t.length} h={traceDigest t} d={showDeclass t}"
+  | "ctirfn.run" :: name :: args =>
+    -- the program of the refinement theorems (SMGo/Gen/CTIRProgFn.lean: DecomposeNAF, ScalarMixedMult_Unsafe, …)
+    match (SMGo.Gen.CTIRProgFn.fnNames.zipIdx.find? (fun p => p.1 == name)).map (·.2), args.mapM parseArg with
+    | some g, some vs =>
+      match run SMGo.Gen.CTIRProgFn.prog SMGo.Gen.CTIRProgFn.globals (stdOracle SMGo.Gen.CTIRProgFn.extKinds (tapeOf [])) fuel g vs with
+      | some (.ret rs, _) => some ("ok" ++ String.join (rs.map (fun v => " " ++ showVal v)))
+      | some (.panic, _) => some "panic"
+      | _ => some "stuck"
+    | _, _ => some "bad-op"
   | ["ctir.check", name] =>
     match lookupFn name with
     | some g => some (toString (check (slice prog g) sigs g))
